@@ -140,6 +140,9 @@ type vcgen struct {
 	inputs     []string
 	witness    []Wit
 
+	localCells    []string // terms of local variable cells that never escape to code outside this function
+	inClosureCall bool
+	curCall       *ssa.CallCommon // the call being translated (for call-site dependent summaries)
 	retTypes  map[string]types.Type
 	argTypes  map[string]types.Type
 	recSpecs  map[string][]string // recursive spec function -> state variables it takes as extra arguments
